@@ -41,8 +41,84 @@ def basic_defaults():
     return out
 
 
+def _self_attr(node, name):
+    return isinstance(node, ast.Attribute) and node.attr == name and isinstance(node.value, ast.Name) and node.value.id == "self"
+
+
+def cache_key_includes_model():
+    """True iff, in cache.py, the identity of the index's embedding model is part of every cache key:
+    (a) the cache_embeddings wrapper builds its EmbeddingsCache with `namespace=<f>(self)` where the
+        module-level function <f> reads both `embedding_engine` and `embedding_model`;
+    (b) EmbeddingsCache.__init__ stores it (`self._namespace = namespace`), from_config / from_dict
+        hand it on;
+    (c) the str variants of get and set compute their key ONLY through `self._generate_key(text)`,
+        and _generate_key calls the key generator on a string built from self._namespace and the text.
+    Anything else: False (the isolation theorem for the current source then fails to check)."""
+    path = os.path.join(REPO, "nemoguardrails", "embeddings", "cache.py")
+    tree = ast.parse(open(path, encoding="utf-8").read())
+    funcs = {n.name: n for n in tree.body if isinstance(n, (ast.FunctionDef, ast.AsyncFunctionDef))}
+    classes = {n.name: n for n in tree.body if isinstance(n, ast.ClassDef)}
+    if "cache_embeddings" not in funcs or "EmbeddingsCache" not in classes:
+        raise ValueError("cache_embeddings / EmbeddingsCache not found in cache.py")
+    # (a)
+    ns_fn = None
+    for node in ast.walk(funcs["cache_embeddings"]):
+        if isinstance(node, ast.Call) and isinstance(node.func, ast.Attribute) and node.func.attr == "from_config" \
+                and isinstance(node.func.value, ast.Name) and node.func.value.id == "EmbeddingsCache":
+            for kw in node.keywords:
+                if kw.arg == "namespace" and isinstance(kw.value, ast.Call) and isinstance(kw.value.func, ast.Name) \
+                        and len(kw.value.args) == 1 and isinstance(kw.value.args[0], ast.Name) and kw.value.args[0].id == "self":
+                    ns_fn = kw.value.func.id
+    if ns_fn is None or ns_fn not in funcs:
+        return False
+    consts = {n.value for n in ast.walk(funcs[ns_fn]) if isinstance(n, ast.Constant) and isinstance(n.value, str)}
+    attrs = {n.attr for n in ast.walk(funcs[ns_fn]) if isinstance(n, ast.Attribute)}
+    if not {"embedding_engine", "embedding_model"} <= (consts | attrs):
+        return False
+    # (b)
+    cls = classes["EmbeddingsCache"]
+    meths = {}
+    for n in cls.body:
+        if isinstance(n, ast.FunctionDef):
+            meths.setdefault(n.name, []).append(n)
+    init = (meths.get("__init__") or [None])[0]
+    if init is None or not any(isinstance(n, ast.Assign) and len(n.targets) == 1 and _self_attr(n.targets[0], "_namespace")
+                               and isinstance(n.value, ast.Name) and n.value.id == "namespace" for n in ast.walk(init)):
+        return False
+    for name in ("from_config", "from_dict"):
+        m = (meths.get(name) or [None])[0]
+        if m is None or not any(isinstance(n, ast.keyword) and n.arg == "namespace" and isinstance(n.value, ast.Name)
+                                and n.value.id == "namespace" for n in ast.walk(m)):
+            return False
+    # (c)
+    gk = (meths.get("_generate_key") or [None])[0]
+    if gk is None:
+        return False
+    ok = False
+    for n in ast.walk(gk):
+        if isinstance(n, ast.JoinedStr):
+            inside = list(ast.walk(n))
+            if any(_self_attr(x, "_namespace") for x in inside) and any(isinstance(x, ast.Name) and x.id == "text" for x in inside):
+                ok = True
+    if not ok or not any(isinstance(n, ast.Call) and isinstance(n.func, ast.Attribute) and n.func.attr == "generate_key"
+                         for n in ast.walk(gk)):
+        return False
+    str_variants = [m for m in meths.get("_", []) if len(m.args.args) >= 2 and isinstance(m.args.args[1].annotation, ast.Name)
+                    and m.args.args[1].annotation.id == "str"]
+    if len(str_variants) != 2:
+        return False
+    for m in str_variants:
+        calls = [n for n in ast.walk(m) if isinstance(n, ast.Call) and isinstance(n.func, ast.Attribute)]
+        if any(c.func.attr == "generate_key" for c in calls):
+            return False
+        if not any(c.func.attr == "_generate_key" and isinstance(c.func.value, ast.Name) and c.func.value.id == "self" for c in calls):
+            return False
+    return True
+
+
 def emit():
     d = basic_defaults()
+    incl = cache_key_includes_model()
     us = Fraction(str(d["max_batch_hold"])) * 1000000
     if us.denominator != 1:
         raise ValueError("max_batch_hold default is not a whole number of microseconds")
@@ -52,6 +128,8 @@ def emit():
         f"Definition default_max_batch_size : nat := {d['max_batch_size']}.\n"
         f"Definition default_max_batch_hold_us : N := {us.numerator}%N.\n"
         f"Definition default_use_batching : bool := {'true' if d['use_batching'] else 'false'}.\n"
+        "(* cache.py: the identity of the index's embedding model is part of every cache key *)\n"
+        f"Definition cache_key_includes_model : bool := {'true' if incl else 'false'}.\n"
     )
 
 
